@@ -5,6 +5,8 @@ import IpcModel.SideTable
 import IpcModel.Router
 import IpcModel.Interleave.Core
 import IpcModel.RecvSetP
+import IpcModel.Ideal
+import IpcModel.Ledger.L
 /-! Line-protocol driver: one request per line on stdin, one canonical answer per line on stdout.
 Imports model files only (no Mathlib/Std), so it links as a native executable. -/
 open Frag
@@ -397,6 +399,63 @@ def cmdSet (toks : List String) : String :=
       s!"{" ".intercalate per} ids={",".intercalate ids} blocked={w.blocked}"
   | _ => "bad-request"
 
+/-! ### ideal channels (C03 / C09 / C19 / C04) -/
+def parseHandle (t : String) : Option Ideal.Handle :=
+  match t.toList with
+  | 's' :: d => (String.ofList d).toNat?.map .snd
+  | 'r' :: d => (String.ofList d).toNat?.map .rcv
+  | 'm' :: d => (String.ofList d).toNat?.map .shm
+  | _ => none
+
+def handleText : Ideal.Handle → String
+  | .snd c => s!"s{c}" | .rcv c => s!"r{c}" | .shm r => s!"m{r}"
+
+def parseIdealOp : List String → Option Ideal.Op
+  | ["new"] => some .newChan
+  | ["clone", c] => c.toNat?.map .cloneSender
+  | ["dropsnd", c] => c.toNat?.map .dropSender
+  | ["recv", c] => c.toNat?.map .recv
+  | ["droprcv", c] => c.toNat?.map .dropReceiver
+  | "send" :: c :: t :: hs =>
+    match c.toNat?, t.toNat?, hs.mapM parseHandle with
+    | some a, some b, some l => some (.send a b l)
+    | _, _, _ => none
+  | _ => none
+
+def idealResText : Ideal.Res → String
+  | .ok => "ok"
+  | .msg t hs => s!"msg:{t}:{if hs.isEmpty then "-" else ",".intercalate (hs.map handleText)}"
+  | .empty => "empty"
+  | .disconnected => "disc"
+  | .sendError => "senderr"
+  | .invalid => "invalid"
+
+def cmdIdeal (toks : List String) : String :=
+  match (splitBar toks).filter (· ≠ []) |>.mapM parseIdealOp with
+  | none => "bad-request"
+  | some ops => " ".intercalate ((Ideal.run ops).2.map idealResText)
+
+/-! ### descriptor ledger (C11 / C03): number of open library descriptors after each step of a history -/
+def ledgerStep (st : Ledger.St) (t : String) : Option Ledger.St :=
+  match (t.splitOn " ").filter (· ≠ "") with
+  | ["nop"] => some st
+  | ["inst", "s"] => some (Ledger.opInstall st 0 .snd)
+  | ["inst", "r"] => some (Ledger.opInstall st 0 .rcv)
+  | ["clone", i] => i.toNat?.bind (Ledger.opClone st)
+  | ["drop", i] => i.toNat?.bind (Ledger.opDrop st)
+  | _ => none
+
+def cmdLedger (toks : List String) : String :=
+  let steps := (splitBar toks).filter (· ≠ [])
+  let go := steps.foldl (fun (acc : Option (Ledger.St × List Nat)) stepToks =>
+    acc.bind fun (st, outs) =>
+      let opsT := (" ".intercalate stepToks).splitOn ","
+      (opsT.foldl (fun a t => a.bind fun s => ledgerStep s t) (some st)).map fun st' =>
+        (st', outs ++ [st'.ofdOf.length - st'.closed.length])) (some (Ledger.init, []))
+  match go with
+  | none => "bad-request"
+  | some (_, outs) => " ".intercalate (outs.map toString)
+
 /-- all fault patterns (ENOBUFS or not) of length k, as numbers 0 .. 2^k-1 -/
 def patOf (k m : Nat) : List Fault := (List.range k).map fun i => if (m >>> i) % 2 = 1 then .enobufs else .none
 
@@ -428,6 +487,8 @@ def answer (line : String) : String :=
   | "router" :: rest => cmdRouter rest
   | "im" :: rest => cmdIm rest
   | "set" :: rest => cmdSet rest
+  | "ideal" :: rest => cmdIdeal rest
+  | "ledger" :: rest => cmdLedger rest
   | "noop" :: _ => "ok"
   | "enc" :: rest => cmdEnc rest
   | "rt" :: rest => cmdRt rest
